@@ -152,27 +152,20 @@ def s3_s4(ctx):
         if isinstance(v, str) and v.startswith('other'):
             b = m.bodies[f]
             r3.fail('%s:%s:unmodelled-primitive' % (PARSER, f.split('::')[-1]), b.where(), '%s performs %s on a scope stack (fail closed)' % (f, v))
-    # literals for which begin_keywords pushes (from E1 / K2)
-    bk = g.fns.get('begin_keywords')
-    lits = set()
-    if bk is not None:
-        for node in sx.walk(bk.item['body']):
-            if node.get('k') == 'match':
-                for arm in node['arms']:
-                    # a literal counts as "pushes exactly once" only when the arm body IS the push, unconditionally
-                    # (any other shape keeps the conservative effect {0, +1} for every call)
-                    b_ = arm['body']
-                    direct = b_.get('k') == 'mcall' and b_['m'] == 'push' and len(b_['args']) == 1 and \
-                        sx.is_path(b_['args'][0]) and b_['args'][0]['p'].startswith('Version::')
-                    if arm['pat'].get('k') == 'lit' and sx.lit_str(arm['pat']['e']) is not None and direct:
-                        lits.add(sx.lit_str(arm['pat']['e']))
-        # ... and only when that match is the whole body of the `with` closure (no surrounding condition)
-        ok_shape = False
-        for node in sx.walk(bk.item['body']):
-            if node.get('k') == 'closure' and node['body'].get('k') == 'match':
-                ok_shape = True
-        if not ok_shape:
-            lits = set()
+    # literals for which begin_keywords provably pushes exactly once (decided on the source by K2's model)
+    from rules.k_keywords import begin_keywords_model
+    bkm = begin_keywords_model(ctx)
+    assume_literals = False
+    if bkm['form'] is not None and not bkm['state_cond'] and (bkm['form'] == 'arm' or bkm['pushes'] == 1):
+        lits = set(bkm['map'])
+    elif bkm['form'] is None:
+        # shape not recognised: not decided — assume +1 for literal calls rather than raising alarms on every caller
+        lits = None
+        assume_literals = True
+        r3.undecided('%s:begin_keywords:effect' % PARSER, '-', 'the push effect of begin_keywords could not be derived from its source (%s); '
+                     'calls with a literal are assumed to push exactly once' % bkm['why'])
+    else:
+        lits = set()
     # exception table by role
     vs_owner = None
     ek_owner = None
@@ -205,10 +198,13 @@ def s3_s4(ctx):
                 return 'clear'
             if isinstance(v, str):
                 return {zero}
-            if len(v) > 1 and c.strs:
-                # begin_keywords("lit"): +1 iff the literal has an arm
-                if all(s_ in lits for s_ in c.strs):
-                    return {x for x in v if x != zero and x != 'multi'} or {zero}
+            if c.strs and cal.endswith('::begin_keywords'):
+                # begin_keywords("lit"): exactly +1 iff K2's model proves an unconditional push for that literal
+                plus = {x for x in v if x != zero and x != 'multi'}
+                if lits is None or all(s_ in lits for s_ in c.strs):
+                    return plus or {zero}
+                if lits == set():
+                    return set(plus) | {zero}
                 return {zero}
             return {x for x in v if x != 'multi'}
         if cal in bodies:
